@@ -1036,6 +1036,9 @@ pub fn fold_fs_stats(fs: &SimFs, out: &Shared) {
     o.stats.fs_calls += fs.calls_len() as u64;
     o.stats.mut_ops += fs.mut_log_len() as u64;
     for c in &calls {
+        if c.tag == 0 {
+            o.stats.call_sites.push((c.kind, c.class));
+        }
         if c.class == FileClass::Table {
             if c.kind == CallKind::Create {
                 o.stats.tables_created += 1;
